@@ -204,7 +204,8 @@ ODD_OPS = ["priority_before_headers", "rst_closed", "wu_closed", "continuation",
            "trailers", "zero_data", "data_after_response", "plain_connect", "nonascii_path",
            "unknown_frame", "settings_variants", "ping_flood", "headers_priority_self_later",
            "window_update_zero_stream_level", "big_header_value", "empty_path", "star_path",
-           "lowercase_method", "te_trailers_body", "rst_then_data_inflight", "goaway_then_more"]
+           "lowercase_method", "te_trailers_body", "rst_then_data_inflight", "goaway_then_more",
+           "late_data_flood"]
 
 
 @st.composite
@@ -216,8 +217,15 @@ def grammar_case(draw: Any) -> Dict[str, Any]:
 
 
 def grammar_bytes(case: Dict[str, Any]) -> Tuple[bytes, List[int]]:
-    """Two witness streams around the odd stream(s). Returns (bytes, witness stream ids)."""
+    data, witnesses, _ = grammar_build(case)
+    return data, witnesses
+
+
+def grammar_build(case: Dict[str, Any]) -> Tuple[bytes, List[int], List[int]]:
+    """Two witness streams around the odd stream(s). Returns (bytes, witness stream ids, marks);
+    the client pauses at each mark until the server has gone quiet."""
     b = H2Builder()
+    marks: List[int] = []
     sid = 1
     witnesses = []
     if case["witness_first"]:
@@ -320,9 +328,24 @@ def grammar_bytes(case: Dict[str, Any]) -> Tuple[bytes, List[int]]:
             b.add(r)
         elif op == "goaway_then_more":
             b.request(odd, b"/o")
+        elif op == "late_data_flood":
+            # uploads to two streams that were answered without being read: more than one
+            # connection window in total, each within its stream window, the second only after
+            # the server had the time to return the credit for the first
+            other = sid
+            sid += 2
+            for x in (odd, other):
+                b.headers(x, [(b":method", b"POST"), (b":scheme", b"http"),
+                              (b":authority", b"example.com"), (b":path", b"/early")],
+                          end_stream=False)
+            for x in (odd, other):
+                marks.append(len(b.out))
+                for i in range(3):
+                    b.data(x, bytes([65 + i]) * 16000, end_stream=i == 2)
+            marks.append(len(b.out))
     b.request(sid, b"/w", b"POST", b"witness-two")
     witnesses.append(sid)
-    return bytes(b.out), witnesses
+    return bytes(b.out), witnesses, marks
 
 
 H1_MALFORMED = {
@@ -423,7 +446,14 @@ async def scenario(env: Any, case: Dict[str, Any]) -> Any:
     data, alpn, tls = case_bytes(case)
     conn = env.connect(alpn=alpn, tls=tls)
     await env.settle0()
-    await deliver(env, conn, data, case.get("seg") or {"mode": "one", "between": "settle"})
+    marks = grammar_build(case)[2] if case["kind"] == "grammar" else []
+    pos = 0
+    for m in marks + [len(data)]:
+        if m > pos:
+            await deliver(env, conn, data[pos:m],
+                          case.get("seg") or {"mode": "one", "between": "settle"})
+            await env.settle(5.0)
+            pos = m
     await env.settle(30.0)
     conn.eof()
     await env.settle(30.0)
